@@ -127,13 +127,6 @@ func extractFacts() {
 		} else {
 			failf("ExtendDeadline: multiplier not found: %v", mult)
 		}
-		zero := collect(fd, func(n ast.Node) string {
-			if is, ok := n.(*ast.IfStmt); ok && exprString(is.Cond) == "s.keepaliveInterval == 0" {
-				return "y"
-			}
-			return ""
-		})
-		addFact("keepaliveZeroDisables", "Bool", boolLean(len(zero) == 1), "a zero keep-alive clears the deadline")
 	}
 	// --- wasp/messages/store.go
 	if fd := findFunc("wasp/messages/store.go", "", "New"); fd != nil {
